@@ -1641,6 +1641,11 @@ func (b *Bitmap) unmarshalPilosaRoaring(data []byte) error {
 	}
 	// Descriptive header section: Read container keys and cardinalities.
 	for i, buf := 0, data[headerSize:]; i < int(keyN); i, buf = i+1, buf[12:] {
+		// A container of a type nobody knows must not enter the bitmap:
+		// whoever cleans up after the error below would trip over it.
+		if typ := byte(binary.LittleEndian.Uint16(buf[8:10])); typ > containerRun {
+			return fmt.Errorf("unknown container type %d", typ)
+		}
 		b.Containers.PutContainerValues(
 			binary.LittleEndian.Uint64(buf[0:8]),
 			byte(binary.LittleEndian.Uint16(buf[8:10])),
